@@ -113,7 +113,20 @@ pub fn fe(m: &N) -> BoxedStrategy<Num> {
     let m4 = m.clone();
     let m5 = m.clone();
     let m6 = m.clone();
+    let m7 = m.clone();
+    // R^-1 for R = 2^(64*limbs): values whose *Montgomery representation* is a limb pattern
+    let rinv = {
+        let r = (N::one() << (64 * nlimbs)) % &m;
+        r.modpow(&(&m - 2u32), &m)
+    };
     prop_oneof![
+        // Montgomery-domain limb patterns: v = L * R^-1 mod m with L sparse / patterned (32-bit granularity)
+        3 => proptest::collection::vec(prop_oneof![6 => Just(0u32), 1 => Just(1u32), 2 => Just(u32::MAX), 1 => Just(0x8000_0000u32), 1 => Just(0x1000_0000u32), 2 => any::<u32>()], nlimbs * 2)
+            .prop_map(move |l| {
+                let mut acc = N::zero();
+                for (i, w) in l.iter().enumerate() { acc += N::from(*w) << (32 * i); }
+                Num(((acc % &m7) * &rinv) % &m7)
+            }),
         // uniform (wide reduce)
         6 => proptest::collection::vec(any::<u8>(), nbytes + 16).prop_map(move |b| Num(N::from_bytes_le(&b) % &m1)),
         // small
